@@ -964,9 +964,45 @@ pub fn run_c10(thorough: bool, seed: u64, shards: usize) -> (Report, String) {
         }
         rep
     });
+    // the command-line mapping of --parser / --derive / --sort onto Options (src/args.rs is one of the
+    // anchors): a slice of runs of the real binary on valid inputs, compared with the library rendering
+    let mut rep = rep;
+    let n_cli: u64 = if thorough { 4_000 } else { 480 };
+    match crate::cli::build_binary() {
+        Ok(bin) => {
+            let work = std::path::Path::new(crate::report::VERIF).join("work").join(format!("c10-{}", std::process::id()));
+            let _ = std::fs::create_dir_all(&work);
+            let sub = crate::report::sharded(shards, |shard| {
+                let mut r = Report::new();
+                let per = n_cli / shards as u64;
+                for k in 0..per {
+                    let idx = 7_000_000 + shard as u64 * per + k;
+                    let mut c = crate::cli::gen_cli_case(seed, idx, false);
+                    if c.input_kind != crate::cli::InputKind::Valid {
+                        continue;
+                    }
+                    if !matches!(c.output, crate::cli::OutputKind::Stdout | crate::cli::OutputKind::NewFile) {
+                        c.output = crate::cli::OutputKind::Stdout;
+                    }
+                    crate::cli::check_cli(&bin, &work, &c, idx, &mut r);
+                }
+                r
+            });
+            let _ = std::fs::remove_dir_all(&work);
+            rep.add("cli_runs_comparing_option_mapping", sub.evaluations);
+            for v in sub.violations {
+                let n = sub.violation_counts.get(&v.sig).copied().unwrap_or(1);
+                let sig = format!("options-via-cli:{}", v.sig);
+                rep.violation(&sig, v.detail, v.case);
+                *rep.violation_counts.entry(sig).or_insert(0) += n.saturating_sub(1);
+            }
+            rep.inconclusive += sub.inconclusive;
+        }
+        Err(e) => rep.notes.push(format!("CLI slice of C10 not run: {}", e)),
+    }
     let rule = format!(
-        "{} trees parsed from random histories (adversarial names, general, collision profile); each rendered with private-use sentinel strings for derive / attribute prefix / text identifier under both sort orders, then under 6-7 option sets (both presets, random hostile strings incl. empty, quotes, newline, backslash, and a prefix aimed at making prefix+name equal the field identifier); every output must equal the sentinel rendering with the strings substituted, the derive line dropped when empty and an attribute rename dropped exactly when prefix+name equals the identifier. Distinct: sentinel rendering bytes.",
-        n
+        "{} trees parsed from random histories (adversarial names, general, collision profile); each rendered with private-use sentinel strings for derive / attribute prefix / text identifier under both sort orders, then under 6-7 option sets (both presets, random hostile strings incl. empty, quotes, newline, backslash, and a prefix aimed at making prefix+name equal the field identifier); every output must equal the sentinel rendering with the strings substituted, the derive line dropped when empty and an attribute rename dropped exactly when prefix+name equals the identifier. Plus {} runs of the real binary on valid inputs over the --parser x --derive x --sort matrix, compared with the library rendering for independently mapped options. Distinct: sentinel rendering bytes.",
+        n, n_cli
     );
     (rep, rule)
 }
